@@ -44,7 +44,10 @@ Declare(c) ==
 
 Next == /\ ~dead
         /\ Len(chain) < Depth
-        /\ \E c \in CallsWithOr(s.t) : Declare(c)
+        \* (at most two uses of | per chain: every further one only makes the union longer)
+        /\ \E c \in CallsWithOr(s.t) :
+              /\ (c.m = "or" => Cardinality({j \in DOMAIN chain : chain[j].m = "or"}) < 2)
+              /\ Declare(c)
 
 View == <<s, prev, last>>
 
